@@ -18,6 +18,8 @@ HARMLESS_CHECKS = {
     "H3_kalman_filters_equivalent_forms": ["C07", "C09", "C12", "C19"],
     "H4_strapdown_error_model_equivalent_forms": ["C15", "C02", "C17", "C05", "C19"],
     "H5_filters_renamed_locals": ["C09", "C10", "C11", "C12", "C13", "C19"],
+    "H6_import_style_numpy_scipy_aliases": ["C16", "C07", "C08", "C04", "C11", "C19"],
+    "H7_import_style_filters_module_aliases": ["C09", "C10", "C11", "C12", "C13", "C08", "C19"],
 }
 # round-2 harmless refactorings (one per property, written by independent sub-agents): own property + C19 here;
 # tools/harmless_matrix.sh runs every harmless patch against all 19 checks
